@@ -34,6 +34,7 @@ type HarnessInfo struct {
 	UnwindFn map[string]int
 	MaxPaths int
 	NoReplay bool
+	Race     bool // native replay runs under the race detector
 	Timeout  int
 	Solver   string
 	Logic    string
@@ -188,6 +189,8 @@ func Load(dirs []string) (*Loaded, error) {
 						h.MaxPaths, _ = strconv.Atoi(f[1])
 					case "noreplay":
 						h.NoReplay = true
+					case "race":
+						h.Race = true
 					case "timeout":
 						h.Timeout, _ = strconv.Atoi(f[1])
 					case "solver":
@@ -612,6 +615,7 @@ type replayResult struct {
 	Fails      []string `json:"fails"`
 	Panic      string   `json:"panic"`
 	AssumeFail string   `json:"assume_fail"`
+	Race       string   `json:"race,omitempty"`
 }
 
 // writeOverlayFiles materialises the overlay under dir and returns the overlay json path.
@@ -632,24 +636,62 @@ func writeOverlayFiles(dirs []string, dir string) (string, error) {
 	return p, os.WriteFile(p, b, 0o644)
 }
 
-func runNative(pkgDir, overlay, cexPath string, timeout time.Duration) ([]replayResult, string, error) {
-	cmd := exec.Command("go", "test", "-vet=off", "-count=1", "-overlay", overlay, "-run", "^TestVerifReplay$", "-timeout", fmt.Sprintf("%ds", int(timeout.Seconds())), "-v", ".")
+// runNative replays the cases natively. With race set the test binary is built
+// with the race detector; a "WARNING: DATA RACE" report printed while a case runs
+// (the test binary's stdout and stderr share one pipe, and every case joins its
+// goroutines before its VERIF-RESULT line) is attributed to that case.
+func runNative(pkgDir, overlay, cexPath string, timeout time.Duration, race bool) ([]replayResult, string, error) {
+	args := []string{"test", "-vet=off", "-count=1", "-overlay", overlay, "-run", "^TestVerifReplay$", "-timeout", fmt.Sprintf("%ds", int(timeout.Seconds())), "-v"}
+	if race {
+		args = append(args, "-race")
+	}
+	args = append(args, ".")
+	cmd := exec.Command("go", args...)
 	cmd.Dir = filepath.Join(RepoDir, pkgDir)
 	cmd.Env = append(goEnv(), "VERIF_CEX="+cexPath)
+	if race {
+		cmd.Env = append(cmd.Env, "CGO_ENABLED=1", "GORACE=halt_on_error=0")
+	}
 	out, err := cmd.CombinedOutput()
 	var res []replayResult
 	sc := bufio.NewScanner(bytes.NewReader(out))
 	sc.Buffer(make([]byte, 1<<20), 1<<26)
+	pending := ""
+	inReport := false
 	for sc.Scan() {
 		line := sc.Text()
+		if strings.Contains(line, "WARNING: DATA RACE") {
+			inReport = true
+			if pending == "" {
+				pending = "DATA RACE"
+			}
+			continue
+		}
+		if inReport {
+			t := strings.TrimSpace(line)
+			if strings.HasPrefix(t, "==================") {
+				inReport = false
+			} else if strings.Contains(t, "cedar/") && strings.Contains(t, "()") && len(pending) < 400 && !strings.Contains(t, "vhC") && !strings.Contains(t, "VH_") {
+				pending += " | " + t
+			}
+		}
 		if i := strings.Index(line, "VERIF-RESULT "); i >= 0 {
 			var r replayResult
 			if json.Unmarshal([]byte(line[i+len("VERIF-RESULT "):]), &r) == nil {
+				r.Race = pending
+				pending = ""
 				res = append(res, r)
 			}
 		}
 	}
 	return res, string(out), err
+}
+
+func groupKey(h *HarnessInfo) string {
+	if h.Race {
+		return h.PkgDir + "|race"
+	}
+	return h.PkgDir
 }
 
 func cleanInputs(m map[string]any) map[string]any {
@@ -696,7 +738,7 @@ func replayAll(l *Loaded, results []*HarnessResult, viols []*Violation, paths ma
 				// adversary's bytes equal a ciphertext the solver cannot predict)
 				continue
 			}
-			byDir[r.Info.PkgDir] = append(byDir[r.Info.PkgDir], item{c: replayCase{r.Info.Name, cleanInputs(s)}, cover: lab, h: r.Info})
+			byDir[groupKey(r.Info)] = append(byDir[groupKey(r.Info)], item{c: replayCase{r.Info.Name, cleanInputs(s)}, cover: lab, h: r.Info})
 		}
 	}
 	for _, v := range viols {
@@ -709,18 +751,20 @@ func replayAll(l *Loaded, results []*HarnessResult, viols []*Violation, paths ma
 			notes = append(notes, fmt.Sprintf("%s: violation %q found by an engine-only harness cannot be replayed natively", v.Harness, v.Label))
 			continue
 		}
-		byDir[h.PkgDir] = append(byDir[h.PkgDir], item{c: replayCase{v.Harness, cleanInputs(v.Inputs)}, viol: v, h: h})
+		byDir[groupKey(h)] = append(byDir[groupKey(h)], item{c: replayCase{v.Harness, cleanInputs(v.Inputs)}, viol: v, h: h})
 	}
 	nv := 0
-	for dir, items := range byDir {
+	for key, items := range byDir {
+		race := strings.HasSuffix(key, "|race")
+		dir := strings.TrimSuffix(key, "|race")
 		cases := make([]replayCase, len(items))
 		for i, it := range items {
 			cases[i] = it.c
 		}
-		cexPath := filepath.Join(outDir, "cases-"+strings.ReplaceAll(dir, "/", "_")+".json")
+		cexPath := filepath.Join(outDir, "cases-"+strings.ReplaceAll(strings.ReplaceAll(key, "|", "_"), "/", "_")+".json")
 		b, _ := json.MarshalIndent(cases, "", " ")
 		os.WriteFile(cexPath, b, 0o644)
-		res, out, err := runNative(dir, overlay, cexPath, 10*time.Minute)
+		res, out, err := runNative(dir, overlay, cexPath, 10*time.Minute, race)
 		if len(res) == 0 {
 			msg := "native replay produced no results in " + dir
 			if err != nil {
@@ -742,7 +786,9 @@ func replayAll(l *Loaded, results []*HarnessResult, viols []*Violation, paths ma
 			}
 			if it.viol != nil {
 				repro := false
-				if it.viol.Kind == "assert" || it.viol.Kind == "alloc" {
+				if it.viol.Kind == "race" {
+					repro = r.Race != ""
+				} else if it.viol.Kind == "assert" || it.viol.Kind == "alloc" {
 					for _, f := range r.Fails {
 						if f == it.viol.Label {
 							repro = true
@@ -780,6 +826,10 @@ func replayAll(l *Loaded, results []*HarnessResult, viols []*Violation, paths ma
 				notes = append(notes, fmt.Sprintf("%s: cover sample %q not reached natively (covers=%v panic=%q) -- engine/native divergence", it.c.Harness, it.cover, r.Covers, r.Panic))
 				continue
 			}
+			if r.Race != "" {
+				notes = append(notes, fmt.Sprintf("%s: the race detector reported a race on a sample the lock-set analysis passed (%s) -- engine/native divergence", it.c.Harness, r.Race))
+				continue
+			}
 			validated++
 		}
 	}
@@ -815,14 +865,18 @@ func Replay(path string) int {
 	cex := filepath.Join(VerifDir, "out", "replay-one.json")
 	cb, _ := json.Marshal([]replayCase{{v.Harness, v.Inputs}})
 	os.WriteFile(cex, cb, 0o644)
-	res, out, _ := runNative(v.PkgDir, overlay, cex, 10*time.Minute)
+	res, out, _ := runNative(v.PkgDir, overlay, cex, 10*time.Minute, v.Kind == "race")
 	if len(res) == 0 {
 		fmt.Println(out)
 		fmt.Println("NOT-REPRODUCED (no native result)")
 		return 2
 	}
 	r := res[0]
-	repro := r.Panic != "" && v.Kind != "assert"
+	repro := r.Panic != "" && v.Kind != "assert" && v.Kind != "race"
+	if v.Kind == "race" && r.Race != "" {
+		fmt.Println("native race report:", r.Race)
+		repro = true
+	}
 	for _, f := range r.Fails {
 		if f == v.Label {
 			repro = true
